@@ -333,11 +333,14 @@ def confirm_walk(binary, prop, v, idx):
 
 def run_globs(task):
     """Args::globs / Args::ignored_globs (real MIR): the positional globs - those given at the top level and
-    those given to `list` - all end up in the allow set, the --ignore patterns (and only they) in the ignore
-    set; a pattern globset refuses makes the call fail.  globset itself is a recording stub."""
-    # Shapes the command line can express: globs at the top level and no subcommand (nlist None), or the
-    # `list` subcommand with its own globs and none at the top level (a top-level glob list swallows the word `list`).
-    ntop, nlist, nign, bad = task          # bad: None | ('top'|'list'|'ign', index)
+    those given to `list` - all end up in the allow set, verbatim; the --ignore patterns (and only they) in
+    the ignore set, verbatim; a pattern globset refuses makes the call fail; nothing depends on the file
+    system (Path::is_dir / exists / is_file answer arbitrarily).  globset itself is a recording stub."""
+    top, lst, ign, bad = task          # lst None: no sub-command; bad: None | ('top'|'list'|'ign', index)
+    top = [x.encode() for x in top]
+    ign = [x.encode() for x in ign]
+    is_list = lst is not None
+    lst = [x.encode() for x in (lst or [])]
     prog = driver.load_program()
     stats = PathStats()
     f_globs = prog.find_method('Args', 'globs')
@@ -346,16 +349,23 @@ def run_globs(task):
         raise EngineError('Args::globs / ignored_globs not in the MIR dump')
     out = dict(violations=[], samples=[], obligations=0, cover={}, panic_paths=0)
     roles = set()
-    holder = {}
-    top = [b'top%d/*.py' % i for i in range(ntop)]
-    lst = [b'list%d/**' % i for i in range(nlist or 0)]
-    ign = [b'ign%d' % i for i in range(nign)]
     badpat = None
     if bad:
         badpat = {'top': top, 'list': lst, 'ign': ign}[bad[0]][bad[1]]
 
+    def desc():
+        return dict(fsroot='globs', top=[x.decode() for x in top], list=[x.decode() for x in lst],
+                    ignore=[x.decode() for x in ign], bad=bad, is_list=is_list)
+
     def run_path(I):
         st = I.stubs
+        n = [0]
+
+        def fs_probe(I2, a, ci, dt):
+            n[0] += 1
+            return I2.fresh_bool('fs%d' % n[0])
+        for k in ('Path::is_dir', 'Path::exists', 'Path::is_file'):
+            st[k] = fs_probe
 
         def glob_new(I2, a, ci, dt):
             p = bytes(as_sstr(I2, a[0]).b)
@@ -367,20 +377,19 @@ def run_globs(task):
 
         def add(I2, a, ci, dt):
             r = a[0]
-            b = I2.load(r)
-            g = a[1]
-            I2.store(r, Struct('GlobSetBuilder', (VecVal(tuple(b.f[0].items) + (g.f[0],)),)))
+            b_ = I2.load(r)
+            I2.store(r, Struct('GlobSetBuilder', (VecVal(tuple(b_.f[0].items) + (a[1].f[0],)),)))
             return r
         st['GlobSetBuilder::add'] = add
 
         def build(I2, a, ci, dt):
-            b = a[0]
-            while isinstance(b, Ref):
-                b = I2.load(b)
-            return Ok(Struct('GlobSet', (tuple(b.f[0].items),)))
+            b_ = a[0]
+            while isinstance(b_, Ref):
+                b_ = I2.load(b_)
+            return Ok(Struct('GlobSet', (tuple(b_.f[0].items),)))
         st['GlobSetBuilder::build'] = build
         cmd = NONE
-        if nlist is not None:
+        if is_list:
             vi = prog.variant_index('SubCommand', 'List')
             cmd = Some(Enum('SubCommand', vi, 'List', (VecVal([new_string(I, x) for x in lst]),)))
         args = mk_struct(prog, 'Args', extensions=VecVal(()), disabled_validators=VecVal(()), enabled_validators=VecVal(()),
@@ -395,8 +404,7 @@ def run_globs(task):
         if role in roles:
             return
         roles.add(role)
-        out['violations'].append(dict(role=role, summary=summary, fsroot='globs', top=[x.decode() for x in top],
-                                      list=[x.decode() for x in lst], ignore=[x.decode() for x in ign], bad=bad, is_list=nlist is not None))
+        out['violations'].append(dict(desc(), role=role, summary=summary))
 
     for I, pk, val in explore(prog, models.M, run_path, stats=stats, max_paths=2000):
         if pk == 'panic':
@@ -417,31 +425,36 @@ def run_globs(task):
             viol(I, 'ignore-set-is-not-the-ignore-globs', 'ignore set %s, --ignore %s' % (sorted(i.f[0].f[0]), sorted(ign)))
         out['cover']['globs'] = out['cover'].get('globs', 0) + 1
         if not out['samples']:
-            out['samples'].append(dict(role='sample', summary='sample path', fsroot='globs', top=[x.decode() for x in top],
-                                       list=[x.decode() for x in lst], ignore=[x.decode() for x in ign], bad=bad, is_list=nlist is not None))
+            out['samples'].append(dict(desc(), role='sample', summary='sample path'))
     out.update(Agg(PROP, 'x').stats_from(stats))
     return out
 
 
 def confirm_globs(binary, prop, v, idx):
-    """Replay: `blockwatch --ignore .. [globs]` (validation: every file holds an unsorted keep-sorted block, the
-    diagnostics name the files examined) or `blockwatch --ignore .. list [globs]`, over a tree with one file
-    per pattern, one ignored file and one file no pattern matches."""
+    """Replay over a tree with one file per wildcard pattern, a directory for every pattern that is a plain
+    name, the ignored files and one file no pattern matches:  `blockwatch --ignore .. [globs]` (validation:
+    every file holds an unsorted keep-sorted block, the diagnostics name the files examined),
+    `blockwatch --ignore .. list [globs]`, or - globs on both sides - `blockwatch [globs] -d check-ai list
+    [globs]` (an option must sit in between, or the word `list` is taken for a glob).  A hidden ignored
+    directory is also named in a diff (hidden files only enter through the diff) and must stay out."""
     body = '# <block name="b" keep-sorted>\nb\na\n# </block>\n'
     files = {}
     want = []
-    for g in v['top']:
-        fn = g.replace('*', 'x')
-        files[fn] = body
-        want.append(fn)
-    for g in v['list']:
-        fn = g.replace('**', 'd/y.py')
-        files[fn] = body
-        want.append(fn)
+    for g in v['top'] + v['list']:
+        if '*' in g:
+            fn = g.replace('**', 'd/y.py').replace('*', 'x')
+            files[fn] = body
+            want.append(fn)
+        else:
+            files[g + '/a.py'] = body         # the pattern names a directory: a glob `src` does not select src/a.py
     if not v['top'] and not v['list']:
         want = None          # no glob: nothing is scanned when stdin is not a terminal
+    hidden = []
     for g in v['ignore']:
-        files[g + '/i.py'] = body
+        base = g[:-3] if g.endswith('/**') else g
+        files[base + '/i.py'] = body
+        if base.startswith('.'):
+            hidden.append(base + '/i.py')
     files['other/z.py'] = body
     real = {k: list(v[k]) for k in ('top', 'list', 'ignore')}
     if v.get('bad'):
@@ -449,17 +462,30 @@ def confirm_globs(binary, prop, v, idx):
         real[{'top': 'top', 'list': 'list', 'ign': 'ignore'}[v['bad'][0]]][v['bad'][1]] = 'bad[/x'
     argv = []
     for g in real['ignore']:
-        argv += ['--ignore', g + '/**' if not g.startswith('bad[') else g]
-    # the ignored directory also matches a positional glob: --ignore wins
-    extra = ['ign*/**'] if v['ignore'] and (v['top'] or v['list']) else []
-    argv += (['list'] + real['list'] + extra) if v.get('is_list') else (real['top'] + extra)
+        argv += ['--ignore', g if (g.endswith('/**') or g.startswith('bad[')) else g + '/**']
+    # the ignored directories also match a positional glob: --ignore wins
+    extra = ['ign*/**'] if any(g.startswith('ign') for g in v['ignore']) and (v['top'] or v['list']) else []
+    if v.get('is_list'):
+        argv += (real['top'] + ['-d', 'check-ai'] if real['top'] else []) + ['list'] + real['list'] + extra
+    else:
+        argv += real['top'] + extra
     d = scratch_dir('globs')
+    r2 = None
     try:
         git_init(d)
         for fn, content in files.items():
             os.makedirs(os.path.dirname(os.path.join(d, fn)) or d, exist_ok=True)
             open(os.path.join(d, fn), 'w').write(content)
         r = run_blockwatch(binary, d, argv, stdin=b'')
+        if hidden and not v.get('bad'):
+            diff = b''
+            for fn in hidden:
+                lines = files[fn].split('\n')[:-1]
+                diff += ('diff --git a/%s b/%s\n--- /dev/null\n+++ b/%s\n@@ -0,0 +1,%d @@\n' % (fn, fn, fn, len(lines))).encode() + ''.join('+' + l + '\n' for l in lines).encode()
+            ign_args = []
+            for g in real['ignore']:
+                ign_args += ['--ignore', g if g.endswith('/**') else g + '/**']
+            r2 = run_blockwatch(binary, d, ign_args + ['list'], stdin=diff)
     finally:
         shutil.rmtree(d, ignore_errors=True)
     try:
@@ -474,7 +500,117 @@ def confirm_globs(binary, prop, v, idx):
         v['confirmed'] = bool(keys)
     else:
         v['confirmed'] = keys != sorted(want)
+    if r2 is not None:
+        try:
+            k2 = sorted(json.loads(r2['stdout']).keys())
+        except ValueError:
+            k2 = None
+        v['observed']['hidden_ignored_file_in_diff'] = dict(code=r2['code'], keys=k2)
+        if k2 != []:
+            v['confirmed'] = True
     if v['confirmed']:
         v['replay'] = save_replay(prop, 'globs-%s-%d' % (v['role'], idx), {k: c.encode() for k, c in files.items()},
                                   ' '.join(argv), 'expected files %s; %s' % (v['expected'], v['summary']), v)
+    return v
+
+
+READ_ALPHABET = (0xEF, 0xBB, 0xBF, 10, 13, 32, 35, 60, 97)      # the bytes of a byte-order mark, line ends, blank, #, <, a
+
+
+def run_readfs(task):
+    """FileSystemImpl::read_to_string (real MIR) over a std::fs::read_to_string stub that returns N symbolic
+    bytes: the text handed on is the file's content byte for byte (every position blockwatch reports is a
+    byte position in the file: a byte-order mark, a CR or a trailing blank is part of it), an I/O error
+    comes through as Err."""
+    n, fail = task
+    prog = driver.load_program()
+    stats = PathStats()
+    f_read = prog.find_method('FileSystemImpl', 'read_to_string')
+    if f_read is None:
+        raise EngineError('FileSystemImpl::read_to_string not in the MIR dump')
+    out = dict(violations=[], samples=[], obligations=0, cover={}, panic_paths=0)
+    roles = set()
+    holder = {}
+
+    def run_path(I):
+        content = tuple(I.fresh_byte('fb%d' % i, READ_ALPHABET) for i in range(n))
+        # valid UTF-8: the three bytes of the mark only appear together, and only at the start
+        nomark = lambda b: z3.And(b != 0xEF, b != 0xBB, b != 0xBF)
+        if n >= 3:
+            I.add(z3.Or(z3.And(content[0] == 0xEF, content[1] == 0xBB, content[2] == 0xBF), zand([nomark(b) for b in content[:3]])))
+        for i, b in enumerate(content):
+            if i >= 3 or n < 3:
+                I.add(nomark(b))
+        holder['content'] = content
+
+        def fs_read(I2, a, ci, dt):
+            if fail:
+                return Err(Opaque('io::Error', 'No such file or directory'))
+            return Ok(SString(content, I2.new_alloc()))
+        I.stubs['fs::read_to_string'] = fs_read
+        I.stubs['std::fs::read_to_string'] = fs_read
+        me = Ref(Cell(mk_struct(prog, 'FileSystemImpl', root_path=new_string(I, b'/r'))), ())
+        return I.call_fn(f_read, [me, new_string(I, b'a.py')])
+
+    def viol(I, cond, role, summary):
+        out['obligations'] += 1
+        if role in roles:
+            return
+        if isinstance(cond, bool):
+            cond = z3.BoolVal(cond)
+        if I.check(cond):
+            m = I.solver.model()
+            roles.add(role)
+            out['violations'].append(dict(role=role, summary=summary, fsroot='read',
+                                          content=model_bytes(m, holder['content']).decode('latin1')))
+
+    for I, pk, val in explore(prog, models.M, run_path, stats=stats, max_paths=5000):
+        if pk == 'panic':
+            out['panic_paths'] += 1
+            viol(I, True, 'read-panic', 'panic: %s' % val.msg[:120])
+            continue
+        if fail:
+            if val.v == 0:
+                viol(I, True, 'read-error-swallowed', 'the file cannot be read, but read_to_string returned Ok')
+        elif val.v != 0:
+            viol(I, True, 'read-fails', 'the file was read, but read_to_string returned Err')
+        else:
+            got = as_sstr(I, val.f[0]).b
+            want = holder['content']
+            if len(got) != len(want):
+                viol(I, True, 'file-text-altered', 'the file has %d bytes, the text handed on has %d' % (len(want), len(got)))
+            else:
+                viol(I, zor([g != w for g, w in zip(got, want)]) if n else False, 'file-text-altered', 'the text handed on differs from the bytes of the file')
+        out['cover']['read'] = out['cover'].get('read', 0) + 1
+    out.update(Agg(PROP, 'x').stats_from(stats))
+    return out
+
+
+def confirm_read(binary, prop, v, idx):
+    """Replay: the witness content, followed by a block, as a .py file: the listed position of the tag is its
+    byte position in the file."""
+    head = v.get('content', '').encode('latin1')
+    # keep the head on one line so that the tag's line is 1 and its column counts the head's bytes
+    head = bytes(b for b in head if b not in (10, 13))
+    content = head + b'# <block name="t">\n# </block>\n'
+    want = (1, len(head) + 3)
+    d = scratch_dir('fsread')
+    try:
+        git_init(d)
+        open(os.path.join(d, 'a.py'), 'wb').write(content)
+        r = run_blockwatch(binary, d, ['list', 'a.py'], stdin=b'')
+    finally:
+        shutil.rmtree(d, ignore_errors=True)
+    got = None
+    try:
+        b0 = json.loads(r['stdout'])['a.py'][0]
+        got = (b0['line'], b0['column'])
+    except (ValueError, KeyError, IndexError):
+        pass
+    v['observed'] = dict(code=r['code'], tag_at=got, stderr=r['stderr'][-200:])
+    v['expected'] = want
+    v['confirmed'] = got != want
+    if v['confirmed']:
+        v['replay'] = save_replay(prop, 'fsread-%s-%d' % (v['role'], idx), {'a.py': content}, 'list a.py',
+                                  'expected the tag at line %d column %d (byte column); %s' % (want[0], want[1], v['summary']), v)
     return v
